@@ -65,7 +65,8 @@ def translate():
     shape = (
         r"while ctx\.pass_idx != MAX_ITERATIONS \{ let symbol_count = ctx\.symbols\.node_count\(\); "
         r"match ctx\.emit_tokens\(&ast\.main_file\(\)\.tokens\) \{ Ok\(\(\)\) => \(\), Err\(e\) => \{ errors = e\.with_code_map\(&ctx\.tree\.code_map\); \} \} "
-        r"ctx\.after_pass\(\)\.expect\(\"Could not finalize pass\"\); "
+        r"(?:ctx\.after_pass\(\)\.expect\(\"Could not finalize pass\"\); |if let Err\(e\) = ctx\.after_pass\(\) \{ errors\.extend\(e\); \} )"   # C06: reported instead of panicking
+        
         r"let symbols_added = ctx\.symbols\.node_count\(\) != symbol_count; "
         r"if (?P<segs>[^{]+) \{ (?P<mkdefault>.*?) \} else \{ "
         r"if (?P<bail>[^{]+) \{ return \(Some\(ctx\), errors\); \} "
